@@ -10,8 +10,13 @@ THOROUGH_MODELS = ['KernelImpl_safe.cfg', 'KernelImpl_safe3.cfg', 'KernelImpl_ev
 def nontrivial(lines):
     """a trace is non-trivial when two harness threads had calls in flight at the same time"""
     act = set()
+    cbp = set()
     for l in lines:
         e = json.loads(l)
+        if e['e'] == 'cbB':
+            cbp.add(e['p'])
+            if len(cbp) >= 2:
+                return True
         if e['e'] in ('callB', 'unsubB', 'addB', 'waitB'):
             if act - {e['p']}:
                 return True
@@ -32,7 +37,7 @@ def model_part(rep, models):
             rep.inconclusive.append('Level-2 model %s violates %s (model only; the verdict comes from the real traces)' % (cfg, r.violation))
 
 
-def trace_part(rep, pid, ntraces, seeds, driver='drive-kernel', spec='ContractTrace', extra=()):
+def trace_part(rep, pid, ntraces, seeds, driver='drive-kernel', spec='ContractTrace', extra=(), label=None):
     cfg = '%s_%s.cfg' % (spec, pid)
     d = vlib.scratch('ktr-')
     try:
@@ -40,7 +45,12 @@ def trace_part(rep, pid, ntraces, seeds, driver='drive-kernel', spec='ContractTr
         seen = set()
         for s in seeds:
             out = os.path.join(d, 'trace-%d.ndjson' % s)
-            vlib.run_harness([driver, '-n', str(ntraces), '-seed', str(s), '-out', out, '-par', '8'] + list(extra))
+            scen = os.path.join(d, 'scen-%d.ndjson' % s)
+            vlib.run_harness([driver, '-n', str(ntraces), '-seed', str(s), '-out', out, '-par', '8', '-scenarios', scen] + list(extra))
+            scenarios = {}
+            for line in open(scen):
+                o = json.loads(line)
+                scenarios[o['t']] = o['scenario']
             v = vlib.validate_traces(spec, cfg, out)
             rep.add_states(v['result'])
             for t in v['order']:
@@ -53,19 +63,22 @@ def trace_part(rep, pid, ntraces, seeds, driver='drive-kernel', spec='ContractTr
                     nontriv += 1
             if v['order']:
                 t0 = v['order'][0]
-                rep.sample(dict(driver=driver, seed=s, trace=t0, first_events=[json.loads(x) for x in v['traces'][t0][:12]]), maxn=3)
+                rep.sample(dict(driver=label or driver, seed=s, trace=t0, first_events=[json.loads(x) for x in v['traces'][t0][:12]]), maxn=3)
             for t, info in v['rejected'].items():
                 os.makedirs(os.path.join(vlib.REPLAYS, pid), exist_ok=True)
-                rp = os.path.join(vlib.REPLAYS, pid, '%s-seed%d-trace%d.ndjson' % (driver, s, t))
+                rp = os.path.join(vlib.REPLAYS, pid, '%s-seed%d-trace%d.ndjson' % (label or driver, s, t))
                 with open(rp, 'w') as fh:
                     fh.write(''.join(v['traces'][t]))
                 ev = info.get('event')
-                desc = 'real trace rejected by %s (%s clauses) at event %s: %s' % (spec, pid, info.get('at'), json.dumps(ev))
-                rep.add_violation('%s.trace' % driver, desc, replay_path=rp)
+                sc = scenarios.get(t, {})
+                desc = 'real trace rejected by %s (%s clauses) at event %s: %s; scenario %s' % (spec, pid, info.get('at'), json.dumps(ev), json.dumps(sc)[:300])
+                kind = 'hang' if json.loads(v['traces'][t][-1]).get('e') == 'hang' else 'trace'   # cut by the watchdog
+                comps = [x for x in (sc.get('Head'), sc.get('Tail'), sc.get('Kind')) if x]
+                rep.add_violation('%s.%s' % (label or driver, kind), desc, replay_path=rp, components=comps)
         rep.cov['traces_validated_against_impl'] += total
         rep.cov['evaluations'] += total
         rep.cov['distinct_nontrivial'] += nontriv
-        rep.parts[driver] = dict(traces=total, events=events, concurrent_traces=nontriv, seeds=list(seeds))
+        rep.parts[label or driver] = dict(traces=total, events=events, concurrent_traces=nontriv, seeds=list(seeds))
     finally:
         shutil.rmtree(d, ignore_errors=True)
 
